@@ -232,7 +232,11 @@ func (w *zzW) prewrite(k int, t zzTx, a zzPrewriteArgs) error {
 }
 
 func (w *zzW) plock(k int, t zzTx, ttl uint64) []*kvrpcpb.KeyError {
+	// a large-transaction client asks for a min-commit-ts on its pessimistic locks (for-update ts + 1),
+	// an older one sends none: both forms (readers can only push a non-zero one)
+	minc := zzIte64(zzBool("plock.minc"), t.forUpdate+1, 0)
 	resp := w.store.PessimisticLock(&kvrpcpb.PessimisticLockRequest{
+		MinCommitTs:  minc,
 		Mutations:    []*kvrpcpb.Mutation{{Op: kvrpcpb.Op_PessimisticLock, Key: zzKeys[k]}},
 		PrimaryLock:  zzKeys[0],
 		StartVersion: t.start,
